@@ -291,6 +291,8 @@ def run_check(prop: str, tier: str, seed: int, workers: int | None = None, runs:
             for v in r.get("violations", []):
                 kid = classify(mod, specs[r["index"]], v, known)
                 ck = (v["monitor"], kid)
+                if any(m[0] == r["index"] for m in classes.get(ck, [])):
+                    continue  # one member per run and class
                 classes.setdefault(ck, []).append((r["index"], v))
 
         shrink_budget = int(getattr(mod, "SHRINK_BUDGET", {"quick": 24, "thorough": 80}).get(tier, 24))
@@ -307,7 +309,10 @@ def run_check(prop: str, tier: str, seed: int, workers: int | None = None, runs:
             if v2 is None:
                 harness_errors.append((idx, f"non-reproducible candidate monitor={monitor}", ""))
                 continue
-            mspec, mv, attempts = minimise(mod, prop, pool, spec0, v, known, shrink_budget, timeout_s)
+            if kid is not None and tier == "quick":
+                mspec, mv, attempts = spec0, v, 0  # known finding: replay-confirmed above, minimised only in the thorough tier
+            else:
+                mspec, mv, attempts = minimise(mod, prop, pool, spec0, v, known, shrink_budget, timeout_s)
             if mspec is not spec0:
                 rr2 = replay_in_fresh_process(prop, mspec, timeout_s=timeout_s + 120)
                 mv2 = same_class(mv, rr2.get("violations", [])) if "harness_error" not in rr2 else None
